@@ -57,9 +57,9 @@ BODIES = [
     "(({A}[&col=red,h={{1,2}}]:1[edge note],{B}[plain]:2)[&support=0.9]:0.5,{C}:1,{D}:2)",
     "({A}:1,{B}:2,({C}:3)u:4,{D}:5)",
 ]
-PREFIX = ["", "[&R] ", "[&U] ", "[&W 0.25] [&R] ", "[&U] [&W 1/4] ", "[a tree comment] ", "[&lnP=-12.5,name=\"x y\"] [&R] "]
+PREFIX = ["", "[&R] ", "[&U] ", "[&W 0.25] [&R] ", "[&U] [&W 1/4] ", "[a tree comment] ", "[&lnP=-12.5,name=\"x y\"] [&R] ", "[&W 0] [&R] "]
 # statement pool: (prefix index, body index) pairs covering every feature at least twice
-POOL = [(0, 0), (1, 1), (2, 2), (3, 0), (4, 3), (5, 4), (6, 2), (1, 3)]
+POOL = [(0, 0), (1, 1), (2, 2), (3, 0), (4, 3), (5, 4), (6, 2), (1, 3), (7, 1)]
 
 
 def stmt(k, labmap):
@@ -122,7 +122,7 @@ def nexus_doc(blocks, taxa, chars, between=0, sets=False):
 def seqs(maxlen, full):
     out = []
     for n in range(1, maxlen + 1):
-        for s in itertools.product(range(len(POOL)), repeat=n):
+        for s in itertools.product(range(8), repeat=n):  # (statement 8, the zero-weight tree, only in the documents made for it)
             if n == 3 and not full and (s[0] + 2 * s[1] + 3 * s[2]) % 8 != 0:
                 continue
             out.append(s)
@@ -217,6 +217,12 @@ def corpus(tier, rng):
            " TREE t2 = (A,\n (B,C));\nEND;\n")
     docs.append(dict(schema="nexus", name="nexus:ignored-block+multiline-trees", text=IGN, sizes=[2],
                      opts_list=[{}, {"store_ignored_blocks": True}, {"store_ignored_blocks": True, "rooting": "force-unrooted"}]))
+    # a tree of weight ZERO among weighted ones, weights kept and not kept
+    for sq in ((3, 8, 1), (8, 4)):
+        docs.append(dict(schema="newick", name="newick:%s/zero-weight" % "".join(map(str, sq)), text=newick_doc(sq), sizes=[len(sq)],
+                         opts_list=[{"store_tree_weights": True}, {}]))
+        docs.append(dict(schema="nexus", name="nexus:%s/zero-weight" % "".join(map(str, sq)), text=nexus_doc([(sq, None)], True, chars=False), sizes=[len(sq)],
+                         opts_list=[{"store_tree_weights": True}, {}]))
     # two titled TAXA blocks with labels in common, a TREES block linked to each
     from bounded.C11 import NEXUS_TWO
     docs.append(dict(schema="nexus", name="nexus:two-taxa-blocks", text=NEXUS_TWO, sizes=[1, 1], opts_list=[{}]))
@@ -229,8 +235,10 @@ def corpus(tier, rng):
             text = ds.as_string(schema="nexml")
         except Exception:
             continue
+        # (a source with several taxa blocks gives a NeXML document with several otus elements: like the hand-written one above it is
+        # compared under the attached-namespace clause only)
         docs.append(dict(schema="nexml", name="nexml<-" + d["name"], text=text, sizes=list(d["sizes"]),
-                         opts_list=[{}, {"suppress_internal_node_taxa": False}]))
+                         opts_list=[{}, {"suppress_internal_node_taxa": False}], attached=len(ds.taxon_namespaces) > 1))
     return docs
 
 
@@ -342,6 +350,14 @@ def evaluate(case):
         return ta_dump(ta)
 
     tref = _call(ta_ref)
+    if tref[0] == "ok" and ref[0] == "ok":
+        # the weights the array keeps are the weights the other routes deliver (a tree without one counts 1.0)
+        def ta_weights():
+            tl = TreeList.get(data=text, schema=schema, **kw)
+            return [1.0 if t.weight is None else t.weight for t in tl._trees]
+        wref = _call(ta_weights)
+        if wref[0] == "ok" and list(tref[1][2]) != list(wref[1]):
+            out.append(["routes.treearray.weights", "TreeArray keeps the weights %r, the trees read by TreeList.get carry %r" % (list(tref[1][2]), wref[1])])
     for how, what in (("read", "TreeArray.read(data=)"), ("files", "TreeArray.read_from_files")):
         got = run(lambda: ta_read(how))
         if ref[0] == "exc":
